@@ -190,7 +190,9 @@ def work(item):
         # the table without rows, through every path
         for path in ("rowio", "api", "file", "own-file"):
             judge({"config": list(config), "table": [], "path": path}, part)
-        for table in api_tables:
+        # and tables of two and three rows (a line delimiter between rows, not only behind the last one)
+        taller = [t for t in tables if len(t) in (2, 3) and all(len(row) == len(t[0]) for row in t)]
+        for table in api_tables + taller[:: max(1, len(taller) // (24 if tier == "quick" else 400))]:
             judge({"config": list(config), "table": table, "path": "api"}, part)
         for table in api_tables[:6]:
             judge({"config": list(config), "table": table, "path": "api-iterator"}, part)
